@@ -3,8 +3,11 @@ use anyhow::Context;
 use crossbeam::channel::bounded;
 use ignore::{DirEntry, WalkBuilder, WalkState};
 use std::{
-    collections::{BTreeMap, HashMap},
-    mem, thread,
+    collections::{BTreeMap, HashMap, HashSet},
+    mem,
+    path::PathBuf,
+    sync::Mutex,
+    thread,
 };
 use typeshare_core::{
     context::{ParseContext, ParseFileContext},
@@ -126,11 +129,26 @@ pub fn parallel_parse(
         Ok(crate_parsed_data)
     });
 
+    // Overlapping source directories (or a followed symlink) can lead to the same file
+    // twice; its items are generated once.
+    let seen_files: Mutex<HashSet<PathBuf>> = Mutex::new(HashSet::new());
+    let seen_files = &seen_files;
+
     walker_builder.build_parallel().run(|| {
         let tx = tx.clone();
 
         Box::new(move |result| {
             let result = result.context("Failed traversing").and_then(|dir_entry| {
+                let first_visit = dir_entry.path().is_dir()
+                    || match dir_entry.path().canonicalize() {
+                        Ok(resolved) => seen_files
+                            .lock()
+                            .map_or(true, |mut seen| seen.insert(resolved)),
+                        Err(_) => true,
+                    };
+                if !first_visit {
+                    return Ok(None);
+                }
                 parse_dir_entry(parse_context, language_type, &dir_entry)
                     .with_context(|| format!("Parsing failed: {:?}", dir_entry.path()))
             });
